@@ -103,6 +103,11 @@ def canon_failure_cases(fc):
         return sorted(str([norm_scalar(v) for v in row]) for row in fc.rows())
     if isinstance(fc, pl.LazyFrame):
         return "LazyFrame"
+    if isinstance(fc, str):
+        # a scalar failure case that is free text (for CHECK_ERROR: the message of the exception the check raised, which for
+        # polars includes the whole query plan with run-specific details): only its first line, without addresses, is part of
+        # the canonical outcome ("messages are excluded")
+        return _ADDR.sub("", fc.split("\n", 1)[0])[:160]
     return str(norm_scalar(fc))
 
 
